@@ -64,6 +64,8 @@ pub enum Op {
     ActorRef { dst: u8, which: u32 },
     // ---- the guarded operations
     Drop { t: Tgt },
+    /// the public route for proofs: Proof::drop function of the resource package
+    DropProof { slot: u8 },
     /// modules: bit0 = attach metadata, bit1 = attach role assignment, bit2 = royalty
     Globalize { t: Tgt, reservation: Option<u8>, modules: u8 },
     GetInfo { t: Tgt },
@@ -110,6 +112,7 @@ impl Op {
             Op::CreateModule { .. } => "create_module",
             Op::ActorRef { .. } => "actor_ref",
             Op::Drop { .. } => "drop_object",
+            Op::DropProof { .. } => "proof_drop_function",
             Op::Globalize { .. } => "globalize",
             Op::GetInfo { .. } => "get_info",
             Op::FieldOp { .. } => "actor_field",
@@ -280,6 +283,8 @@ struct Interp {
     is_method: bool,
     actor_bp: Option<BlueprintId>,
     returned: Vec<u8>,
+    /// global references received from the caller: forwarded to every callee
+    ambient: Vec<NodeId>,
 }
 
 struct Out {
@@ -320,6 +325,13 @@ impl Interp {
         self.slots.get(&s).filter(|x| x.owned && x.state == SlotState::Live).map(|x| x.node)
     }
     fn put(&mut self, dst: u8, node: NodeId, owned: bool) {
+        // never lose track of a live owned node: on collision use a free slot from the top
+        let mut dst = dst;
+        if self.slots.get(&dst).map(|x| x.owned && x.state == SlotState::Live && x.node != node).unwrap_or(false) {
+            if let Some(free) = (0..=255u8).rev().find(|s| !self.slots.contains_key(s)) {
+                dst = free;
+            }
+        }
         self.slots.insert(dst, Slot { node, owned, state: SlotState::Live });
     }
     fn gone(&mut self, t: &Tgt) {
@@ -345,6 +357,11 @@ impl Interp {
         let mut refs = vec![];
         for l in lend {
             refs.push(Reference(self.slots.get(l)?.node));
+        }
+        for a in &self.ambient {
+            if !refs.contains(&Reference(*a)) {
+                refs.push(Reference(*a));
+            }
         }
         let args = ProbeArgs { script: script.to_vec(), give_a: owns.iter().map(|n| Own(*n)).collect(), give_b: vec![], give_c: vec![], lend: refs };
         Some((scrypto_encode(&args).unwrap(), owns))
@@ -460,6 +477,14 @@ impl Interp {
                 out.result = api.drop_object(&n).map(|f| {
                     self.gone_node(&n);
                     format!("dropped:{}fields", f.len())
+                });
+            }
+            Op::DropProof { slot } => {
+                let n = tgt!(&Tgt::Slot(*slot));
+                out.abort_on_err = true;
+                out.result = api.call_function(RESOURCE_PACKAGE, FUNGIBLE_PROOF_BLUEPRINT, PROOF_DROP_IDENT, scrypto_encode(&(Own(n),)).unwrap()).map(|_| {
+                    self.gone_node(&n);
+                    "proof-dropped".to_string()
                 });
             }
             Op::Globalize { t, reservation, modules } => {
@@ -830,7 +855,7 @@ impl Interp {
             let bp = api.get_blueprint_id(&n).ok();
             match bp {
                 Some(bp) if bp.package_address == RESOURCE_PACKAGE && (bp.blueprint_name == FUNGIBLE_PROOF_BLUEPRINT || bp.blueprint_name == NON_FUNGIBLE_PROOF_BLUEPRINT) => {
-                    step(self, api, Op::Drop { t: Tgt::Slot(s) })?;
+                    step(self, api, Op::DropProof { slot: s })?;
                 }
                 Some(bp) if bp.package_address == RESOURCE_PACKAGE && (bp.blueprint_name == FUNGIBLE_BUCKET_BLUEPRINT || bp.blueprint_name == NON_FUNGIBLE_BUCKET_BLUEPRINT) => {
                     rtn.push(Own(n));
@@ -897,7 +922,7 @@ fn run_script<Y: SystemApi<RuntimeError>>(export: &str, input: &IndexedScryptoVa
     let script: Vec<Op> = scrypto_decode(&args.script).map_err(|e| RuntimeError::ApplicationError(radix_engine::errors::ApplicationError::PanicMessage(format!("probe: bad script {e:?}"))))?;
     let self_node = api.actor_get_node_id(ACTOR_REF_SELF).ok();
     let actor_bp = api.actor_get_blueprint_id().ok();
-    let mut me = Interp { frame, slots: BTreeMap::new(), held: vec![], is_method: self_node.is_some(), actor_bp: actor_bp.clone(), returned: vec![] };
+    let mut me = Interp { frame, slots: BTreeMap::new(), held: vec![], is_method: self_node.is_some(), actor_bp: actor_bp.clone(), returned: vec![], ambient: args.lend.iter().map(|r| r.0).filter(|n| n.is_global()).collect() };
     let mut s = 0u8;
     for o in args.give_a.iter().chain(args.give_b.iter()).chain(args.give_c.iter()) {
         me.put(s, o.0, true);
